@@ -103,6 +103,10 @@ func vC10RootOf(msgs []cciptypes.Message) cciptypes.Bytes32 {
 	return tr.Root()
 }
 
+var vC10BigSels = []cciptypes.ChainSelector{5009297550715157269, 11344663589394136015, 15971525489660198786, 4949039107694359620,
+	3734403246176062136, 4051577828743386545, 6433500567565415381, 16015286601757825753, 13264668187771770619,
+	1<<64 - 1, 1 << 63, 7}
+
 func TestVerif_C10_exec(t *testing.T) {
 	ctx := context.Background()
 	r := vNewRand(vSeed() + 1011)
@@ -125,8 +129,15 @@ func TestVerif_C10_exec(t *testing.T) {
 		perm := r.Perm(40)
 		fChain := map[cciptypes.ChainSelector]int{vC10Dest: 1}
 		var sources []cciptypes.ChainSelector
+		// half of the cases use production-sized selectors (more than 2^63 apart / wrapping around 2^64 in a cycle; low bytes
+		// pairwise distinct): a subtracting or truncating comparator orders those differently (seeded change C10-11)
+		bigSels := r.Chance(1, 2)
+		bigPerm := r.Perm(len(vC10BigSels))
 		for k := 0; k < ns; k++ {
 			ch := cciptypes.ChainSelector(perm[k] + 1)
+			if bigSels {
+				ch = vC10BigSels[bigPerm[k]]
+			}
 			sources = append(sources, ch)
 			fChain[ch] = 1
 		}
